@@ -70,13 +70,32 @@ inline void shift_right(T *first, SizeType n, SizeType count) noexcept {
   (void)amc::uninitialized_relocate_n(first, n, first + count);
 }
 
+/// Undo a previous 'shift_right(first, n, count)' whose 'count' opened slots are not (or no longer) filled.
+/// For non trivially relocatable types, the first min(n, count) opened slots still hold (moved-from) objects.
+template <class T, class SizeType, typename std::enable_if<!amc::is_trivially_relocatable<T>::value, bool>::type = true>
+void unshift_right(T *first, SizeType n, SizeType count) noexcept(is_shift_nothrow<T>::value) {
+  // move back the 'n' shifted elements to initialized memory, and destroy the objects left behind
+  std::move(first + count, first + count + n, first);
+  amc::destroy_n(first + std::max(n, count), std::min(n, count));
+}
+
+template <class T, class SizeType, typename std::enable_if<amc::is_trivially_relocatable<T>::value, bool>::type = true>
+inline void unshift_right(T *first, SizeType n, SizeType count) noexcept {
+  (void)amc::uninitialized_relocate_n(first + count, n, first);
+}
+
 /// Fill 'count' 'v' values at memory starting at 'first', with first 'n' slots on initialized memory,
 /// and next 'count - n' slots on uninitialized memory if there is overlap
 template <class T, class SizeType, typename std::enable_if<!amc::is_trivially_relocatable<T>::value, bool>::type = true>
 inline void fill_after_shift(T *first, SizeType n, SizeType count, const T &v) {
   if (n < count) {
     std::uninitialized_fill_n(first + n, count - n, v);
-    std::fill_n(first, n, v);
+    try {
+      std::fill_n(first, n, v);
+    } catch (...) {
+      amc::destroy_n(first + n, count - n);
+      throw;
+    }
   } else {
     std::fill_n(first, count, v);
   }
@@ -187,7 +206,12 @@ template <class T, class SizeType, typename std::enable_if<!std::is_trivially_co
 inline void fill(T *first, SizeType n, SizeType count, const T &v) {
   // uninitialized fill first for slightly better exception safety
   std::uninitialized_fill_n(first + n, count - n, v);
-  std::fill_n(first, n, v);
+  try {
+    std::fill_n(first, n, v);
+  } catch (...) {
+    amc::destroy_n(first + n, count - n);
+    throw;
+  }
 }
 
 template <class T, class SizeType, typename std::enable_if<std::is_trivially_copyable<T>::value, bool>::type = true>
@@ -1314,7 +1338,12 @@ class VectorImpl : public VectorDestr<T, Alloc, SizeType, WithInlineElements, Gr
           pV += count;  // 'v' is one of our elements that is about to be shifted 'count' slots to the right
         }
         shift_right(pos, nElemsToShift, count);
-        fill_after_shift(pos, nElemsToShift, count, *pV);
+        try {
+          fill_after_shift(pos, nElemsToShift, count, *pV);
+        } catch (...) {
+          unshift_right(pos, nElemsToShift, count);
+          throw;
+        }
       }
       this->setSize(this->size() + count);
     } else {
@@ -1347,7 +1376,12 @@ class VectorImpl : public VectorDestr<T, Alloc, SizeType, WithInlineElements, Gr
         amc::uninitialized_copy_n(first, count, pos);
       } else {
         shift_right(pos, nElemsToShift, static_cast<SizeType>(count));
-        copy_after_shift(first, nElemsToShift, static_cast<SizeType>(count), pos);
+        try {
+          copy_after_shift(first, nElemsToShift, static_cast<SizeType>(count), pos);
+        } catch (...) {
+          unshift_right(pos, nElemsToShift, static_cast<SizeType>(count));
+          throw;
+        }
       }
       this->setSize(static_cast<SizeType>(this->size() + count));
     } else {
